@@ -120,7 +120,9 @@ DOWHILE_SCHEMA = {
     'components': 'COMPONENTS',
     'condition': S,
 }
-ROOT_SCHEMA = {'doc': DOC_SCHEMA, 'dowhile': DOWHILE_SCHEMA}
+# the user's variables file (variable_files= of the loader): values for all stages / for one stage
+USERVARS_SCHEMA = {'global': VARMAP, 'stages': STAGEMAP_VARS}
+ROOT_SCHEMA = {'doc': DOC_SCHEMA, 'dowhile': DOWHILE_SCHEMA, 'uservars': USERVARS_SCHEMA}
 
 
 # ------------------------------------------------------------------------------------------------ value typing
@@ -167,7 +169,10 @@ def type_verdict(v, t):
     if isinstance(v, int):
         return 'ok' if k in ('int', 'num') else 'grey'
     if isinstance(v, float):
-        return 'ok' if k in ('float', 'num') else 'grey'
+        if k in ('float', 'num'):
+            return 'ok'
+        # a number with a fractional part is not an integer (2.0 for an integer, and numbers for strings: open)
+        return 'wrong' if k == 'int' and v == v and v not in (float('inf'), float('-inf')) and v != int(v) else 'grey'
     return 'grey'
 
 
@@ -419,6 +424,9 @@ def analyse(root, platform, nonc=()):
     dw = root.get('dowhile')
     if dw is not None:
         _walk(dw, DOWHILE_SCHEMA, ('dowhile',), 'active', platform, an, 'full')
+    uservars = root.get('uservars')
+    if uservars is not None:
+        _walk(uservars, USERVARS_SCHEMA, ('uservars',), 'active', platform, an, 'full')
     comps, imports, inner = component_table(root, platform)
     allc = comps + inner
     if not comps:
@@ -565,6 +573,8 @@ def analyse(root, platform, nonc=()):
         for src in (_get(variables, DEFAULT, 'global'), _get(_get(variables, DEFAULT, 'stages'), st),
                     _get(variables, plat, 'global') if plat != DEFAULT else None,
                     _get(_get(variables, plat, 'stages'), st) if plat != DEFAULT else None,
+                    # what the user supplies with the load: for every stage / for this stage only
+                    _get(root.get('uservars'), 'global'), _get(_get(root.get('uservars'), 'stages'), st),
                     c.get('variables'), _get(c, 'override', plat, 'variables')):
             if isinstance(src, dict):
                 ctx.update(src)
@@ -933,8 +943,18 @@ def selfcheck():
     expect('overridden wrong value', [s for _, s in an.wrong], ['ineffective'])
     expect('type verdicts', [type_verdict(v, t) for v, t in (
         ('c11w', B), (['x'], S), (True, IV), ('3', IV), ('%(n)s', IV), ('%(n)s', B), ({'a': 1}, LS), (1.5, FV), (1, FV),
-        (None, SN), (None, S), ('yes', B))],
-        ['wrong', 'wrong', 'grey', 'grey', 'ok', 'grey', 'wrong', 'ok', 'grey', 'ok', 'grey', 'grey'])
+        (None, SN), (None, S), ('yes', B), (2.5, IV), (2.0, IV), (2.5, NV), (3.14, S), (2.5, B))],
+        ['wrong', 'wrong', 'grey', 'grey', 'ok', 'grey', 'wrong', 'ok', 'grey', 'ok', 'grey', 'grey', 'wrong', 'grey',
+         'ok', 'grey', 'grey'])
+    uv = {'components': [c('A', command={'executable': 'e', 'arguments': '%(d)s'}),
+                         c('B', 1, command={'executable': 'e', 'arguments': '%(d)s'})]}
+
+    def ufaults(user):
+        return analyse({'doc': uv, 'dowhile': None, 'uservars': user}, None).faults()
+    expect('user variable for every stage', ufaults({'global': {'d': 1}}), [])
+    expect('user variable for each stage', ufaults({'stages': {0: {'d': 1}, 1: {'d': 2}}}), [])
+    expect('user variable for stage 0 only', ufaults({'stages': {0: {'d': 1}}}), ['undefined-variable'])
+    expect('user variable for stage 1 only', ufaults({'stages': {1: {'d': 1}}}), ['undefined-variable'])
     ok_obs = {'nodes': ['stage0.A', 'stage0.B'], 'edges': [['stage0.A', 'stage0.B']],
               'component_ids': ['stage0.A', 'stage0.B'],
               'configs': {'stage0.A': {'references': ['data/f:copy'], 'stage': 0},
